@@ -1,717 +1,11 @@
-import ParryModel.Field
-import ParryModel.C07.Model
-import ParryModel.C07.Link
+import ParryModel.C07.Theorems1
+import ParryModel.C07.Theorems2
+import ParryModel.C07.Theorems3
+import ParryModel.C07.Theorems4
 /-!
-# C07 traversal theorems: pruning never loses an answer — for every tree shape and size
-
-`dfs_complete` / `dfs_sound`: with a visitor predicate that is monotone for box containment on a tree whose lane boxes
-contain the boxes below them, the depth-first traversal reports exactly the leaves whose own box satisfies the predicate.
-`dfsLoop_perm`: the iterative work-list version reports the same leaves (as a multiset) as the recursive one.
-`bestFirst_optimal`: if every lane weight is a lower bound of the leaf costs below it, best-first search with the
-cut-off `-entry.cost >= best_cost` returns the minimum leaf cost.
+# C07 property theorems (aggregator)
+`Theorems1`: traversals over the abstract tree (depth-first complete / sound, work-list version, best-first optimal,
+two-tree recursion) and the Minkowski-sum distance bound.  `Theorems2`: the closed lane tests of `SimdAabb` never prune a
+touching part; lower bounds of the point / ray lane weights; nestedness ⇒ the lower-bound hypothesis of `bestFirst_optimal`.
+`Theorems3`: `NonlinearRigidMotion` — the bounding balls of the nonlinear composite cast follow the shapes.
 -/
-namespace C07
-open Model.Bvh Model.Bvh.Tree
-set_option linter.unusedSectionVars false
-
-variable {B L : Type}
-
-/-! ## trees whose boxes are nested -/
-
-mutual
-/-- every lane box `contains` the box of the subtree stored under it, recursively -/
-def Nested (contains : B → B → Prop) : Tree B L → Prop
-  | .leaf _ _ => True
-  | .node b cs => NestedList contains b cs
-def NestedList (contains : B → B → Prop) (b : B) : List (Tree B L) → Prop
-  | [] => True
-  | t :: ts => contains b t.box ∧ Nested contains t ∧ NestedList contains b ts
-end
-
-/-- the visitor's predicate is monotone: true on a box ⇒ true on every box containing it -/
-def MonotonePred (contains : B → B → Prop) (pred : B → Bool) : Prop :=
-  ∀ a b : B, contains a b → pred b = true → pred a = true
-
-mutual
-theorem pred_up (contains : B → B → Prop) (pred : B → Bool) (hm : MonotonePred contains pred) :
-    ∀ (t : Tree B L), Nested contains t → ∀ (b : B) (d : L), (b, d) ∈ leaves t → pred b = true → pred t.box = true
-  | .leaf b' d', _, b, d, hmem, hp => by
-    simp only [leaves, List.mem_singleton, Prod.mk.injEq] at hmem
-    rw [box, ← hmem.1]; exact hp
-  | .node b' cs, hn, b, d, hmem, hp => by
-    simp only [leaves] at hmem
-    exact pred_up_list contains pred hm b' cs hn b d hmem hp
-theorem pred_up_list (contains : B → B → Prop) (pred : B → Bool) (hm : MonotonePred contains pred) (b' : B) :
-    ∀ (cs : List (Tree B L)), NestedList contains b' cs → ∀ (b : B) (d : L), (b, d) ∈ leavesList cs → pred b = true →
-      pred b' = true
-  | [], _, b, d, hmem, _ => by simp [leavesList] at hmem
-  | t :: ts, hn, b, d, hmem, hp => by
-    simp only [leavesList, List.mem_append] at hmem
-    obtain ⟨hc, hnt, hnts⟩ := hn
-    rcases hmem with h | h
-    · exact hm _ _ hc (pred_up contains pred hm t hnt b d h hp)
-    · exact pred_up_list contains pred hm b' ts hnts b d h hp
-end
-
-mutual
-/-- **`dfs_complete`: every leaf whose box satisfies the predicate is reported**, for every nested tree and every
-monotone predicate -/
-theorem dfs_complete (contains : B → B → Prop) (pred : B → Bool) (hm : MonotonePred contains pred) :
-    ∀ (t : Tree B L), Nested contains t → ∀ (b : B) (d : L), (b, d) ∈ leaves t → pred b = true → d ∈ dfs pred t
-  | .leaf b' d', _, b, d, hmem, hp => by
-    simp only [leaves, List.mem_singleton, Prod.mk.injEq] at hmem
-    obtain ⟨rfl, rfl⟩ := hmem
-    simp [dfs, hp]
-  | .node b' cs, hn, b, d, hmem, hp => by
-    have hroot : pred b' = true := pred_up contains pred hm (.node b' cs) hn b d hmem hp
-    simp only [leaves] at hmem
-    simp only [dfs, hroot, if_true]
-    exact dfs_complete_list contains pred hm b' cs hn b d hmem hp
-theorem dfs_complete_list (contains : B → B → Prop) (pred : B → Bool) (hm : MonotonePred contains pred) (b' : B) :
-    ∀ (cs : List (Tree B L)), NestedList contains b' cs → ∀ (b : B) (d : L), (b, d) ∈ leavesList cs → pred b = true →
-      d ∈ dfsList pred cs
-  | [], _, b, d, hmem, _ => by simp [leavesList] at hmem
-  | t :: ts, hn, b, d, hmem, hp => by
-    simp only [leavesList, List.mem_append] at hmem
-    simp only [dfsList, List.mem_append]
-    obtain ⟨_, hnt, hnts⟩ := hn
-    rcases hmem with h | h
-    · exact Or.inl (dfs_complete contains pred hm t hnt b d h hp)
-    · exact Or.inr (dfs_complete_list contains pred hm b' ts hnts b d h hp)
-end
-
-mutual
-/-- **`dfs_sound`: only leaves whose own box satisfies the predicate are reported** (any tree, any predicate) -/
-theorem dfs_sound (pred : B → Bool) :
-    ∀ (t : Tree B L) (d : L), d ∈ dfs pred t → ∃ b : B, (b, d) ∈ leaves t ∧ pred b = true
-  | .leaf b' d', d, h => by
-    simp only [dfs] at h
-    split at h
-    · simp only [List.mem_singleton] at h; subst h; exact ⟨b', by simp [leaves], by assumption⟩
-    · simp at h
-  | .node b' cs, d, h => by
-    simp only [dfs] at h
-    split at h
-    · obtain ⟨b, hb, hp⟩ := dfs_sound_list pred cs d h
-      exact ⟨b, by simpa [leaves] using hb, hp⟩
-    · simp at h
-theorem dfs_sound_list (pred : B → Bool) :
-    ∀ (cs : List (Tree B L)) (d : L), d ∈ dfsList pred cs → ∃ b : B, (b, d) ∈ leavesList cs ∧ pred b = true
-  | [], d, h => by simp [dfsList] at h
-  | t :: ts, d, h => by
-    simp only [dfsList, List.mem_append] at h
-    rcases h with h | h
-    · obtain ⟨b, hb, hp⟩ := dfs_sound pred t d h
-      exact ⟨b, by simp [leavesList, hb], hp⟩
-    · obtain ⟨b, hb, hp⟩ := dfs_sound_list pred ts d h
-      exact ⟨b, by simp [leavesList, hb], hp⟩
-end
-
-private theorem dfsList_append (pred : B → Bool) (xs ys : List (Tree B L)) :
-    dfsList pred (xs ++ ys) = dfsList pred xs ++ dfsList pred ys := by
-  induction xs with
-  | nil => simp [dfsList]
-  | cons t ts ih => simp [dfsList, ih]
-
-private theorem dfsList_reverse_perm (pred : B → Bool) (xs : List (Tree B L)) :
-    (dfsList pred xs.reverse).Perm (dfsList pred xs) := by
-  induction xs with
-  | nil => simp [dfsList]
-  | cons t ts ih =>
-    simp only [List.reverse_cons, dfsList_append, dfsList, List.append_nil]
-    exact (List.perm_append_comm).trans (List.Perm.append_left _ ih)
-
-private theorem sizeList_append (xs ys : List (Tree B L)) : sizeList (xs ++ ys) = sizeList xs + sizeList ys := by
-  induction xs with
-  | nil => simp [sizeList]
-  | cons t ts ih => simp [sizeList, ih]; omega
-
-private theorem sizeList_reverse (xs : List (Tree B L)) : sizeList xs.reverse = sizeList xs := by
-  induction xs with
-  | nil => simp
-  | cons t ts ih => simp [sizeList_append, sizeList, ih]; omega
-
-/-- **the iterative work-list traversal reports the same leaves as the recursive one** (as a multiset: the stack pops
-the last lane first), and its own fuel (`sizeList stack`) suffices: it terminates on every tree -/
-theorem dfsLoop_perm (pred : B → Bool) :
-    ∀ (fuel : Nat) (stack : List (Tree B L)) (out : List L), sizeList stack ≤ fuel →
-      ∃ r : List L, dfsLoop pred fuel stack out = some r ∧ r.Perm (out.reverse ++ dfsList pred stack) := by
-  intro fuel
-  induction fuel with
-  | zero =>
-    intro stack out h
-    cases stack with
-    | nil => exact ⟨_, rfl, by simp [dfsList]⟩
-    | cons t ts => cases t <;> simp [sizeList, size] at h <;> omega
-  | succ fuel ih =>
-    intro stack out h
-    cases stack with
-    | nil => exact ⟨_, rfl, by simp [dfsList]⟩
-    | cons t ts =>
-      simp only [dfsLoop]
-      cases t with
-      | leaf b d =>
-        simp only [sizeList, size] at h
-        simp only [expand]
-        split
-        · rename_i hp
-          obtain ⟨r, hr, hperm⟩ := ih ts (d :: out) (by omega)
-          refine ⟨r, hr, hperm.trans ?_⟩
-          simp [dfsList, dfs, hp]
-        · rename_i hp
-          obtain ⟨r, hr, hperm⟩ := ih ts out (by omega)
-          refine ⟨r, hr, hperm.trans ?_⟩
-          simp [dfsList, dfs, hp]
-      | node b cs =>
-        simp only [sizeList, size] at h
-        simp only [expand]
-        split
-        · rename_i hp
-          obtain ⟨r, hr, hperm⟩ := ih (cs.reverse ++ ts) out (by rw [sizeList_append, sizeList_reverse]; omega)
-          refine ⟨r, hr, hperm.trans ?_⟩
-          simp only [dfsList_append, dfsList, dfs, hp, if_true]
-          exact List.Perm.append_left _ (List.Perm.append_right _ (dfsList_reverse_perm pred cs))
-        · rename_i hp
-          obtain ⟨r, hr, hperm⟩ := ih ts out (by omega)
-          refine ⟨r, hr, hperm.trans ?_⟩
-          simp [dfsList, dfs, hp]
-
-section bestfirst
-variable {C : Type} [LinearOrder C]
-
-/-- the strict comparison used by the traversal -/
-def ltb (a b : C) : Bool := decide (a < b)
-
-mutual
-/-- every lane weight is a lower bound of the costs of the leaves below the lane -/
-def LB (boxCost : B → C) (leafCost : B → L → C) : Tree B L → Prop
-  | .leaf b d => boxCost b ≤ leafCost b d
-  | .node b cs => (∀ p ∈ leavesList cs, boxCost b ≤ leafCost p.1 p.2) ∧ LBList boxCost leafCost cs
-def LBList (boxCost : B → C) (leafCost : B → L → C) : List (Tree B L) → Prop
-  | [] => True
-  | t :: ts => LB boxCost leafCost t ∧ LBList boxCost leafCost ts
-end
-
-private theorem LB_box (boxCost : B → C) (leafCost : B → L → C) (t : Tree B L) (h : LB boxCost leafCost t) :
-    ∀ p ∈ leaves t, boxCost t.box ≤ leafCost p.1 p.2 := by
-  cases t with
-  | leaf b d => intro p hp; simp only [leaves, List.mem_singleton] at hp; subst hp; exact h
-  | node b cs => intro p hp; simp only [leaves] at hp; exact h.1 p hp
-
-private theorem popMin_none (q : List (C × Tree B L)) : popMin ltb q = none ↔ q = [] := by
-  cases q with
-  | nil => simp [popMin]
-  | cons e es =>
-    simp only [popMin]
-    cases popMin ltb es with
-    | none => simp
-    | some r => obtain ⟨m, rest⟩ := r; simp only; split <;> simp
-
-private theorem popMin_spec : ∀ (q : List (C × Tree B L)) (m : C × Tree B L) (rest : List (C × Tree B L)),
-    popMin ltb q = some (m, rest) → (m :: rest).Perm q ∧ ∀ e ∈ rest, m.1 ≤ e.1 := by
-  intro q
-  induction q with
-  | nil => intro m rest h; simp [popMin] at h
-  | cons e es ih =>
-    intro m rest h
-    simp only [popMin] at h
-    cases hp : popMin ltb es with
-    | none =>
-      rw [hp] at h; simp only [Option.some.injEq, Prod.mk.injEq] at h
-      obtain ⟨rfl, rfl⟩ := h
-      have : es = [] := (popMin_none es).1 hp
-      subst this; exact ⟨List.Perm.refl _, by simp⟩
-    | some r =>
-      obtain ⟨m', rest'⟩ := r
-      rw [hp] at h
-      obtain ⟨hperm, hmin⟩ := ih m' rest' hp
-      simp only at h
-      split at h
-      · rename_i hlt
-        simp only [Option.some.injEq, Prod.mk.injEq] at h
-        obtain ⟨rfl, rfl⟩ := h
-        have hlt' : m'.1 < e.1 := by simpa [ltb] using hlt
-        refine ⟨?_, ?_⟩
-        · exact (List.Perm.swap e m' rest').trans (List.Perm.cons e hperm)
-        · intro x hx
-          simp only [List.mem_cons] at hx
-          rcases hx with rfl | hx
-          · exact le_of_lt hlt'
-          · exact hmin x hx
-      · rename_i hlt
-        simp only [Option.some.injEq, Prod.mk.injEq] at h
-        obtain ⟨rfl, rfl⟩ := h
-        have hle : e.1 ≤ m'.1 := by simpa [ltb] using hlt
-        refine ⟨List.Perm.cons e hperm, ?_⟩
-        intro x hx
-        simp only [List.mem_cons] at hx
-        rcases hx with rfl | hx
-        · exact hle
-        · exact le_trans hle (hmin x hx)
-
-private theorem beats_iff (c : C) (best : Option (C × L)) :
-    beats ltb c best = true ↔ ∀ (bc : C) (bd : L), best = some (bc, bd) → c < bc := by
-  cases best with
-  | none => simp [beats]
-  | some bb => obtain ⟨bc, bd⟩ := bb; simp [beats, ltb]
-
-private theorem not_beats (c : C) (best : Option (C × L)) (h : ¬ beats ltb c best = true) :
-    ∃ (bc : C) (bd : L), best = some (bc, bd) ∧ bc ≤ c := by
-  cases best with
-  | none => simp [beats] at h
-  | some bb => obtain ⟨bc, bd⟩ := bb; exact ⟨bc, bd, rfl, by simpa [beats, ltb] using h⟩
-
-/-- total number of tree nodes waiting in the queue -/
-def qsize : List (C × Tree B L) → Nat
-  | [] => 0
-  | e :: es => size e.2 + qsize es
-
-private theorem size_pos (t : Tree B L) : 0 < size t := by cases t <;> simp [size] <;> omega
-
-private theorem qsize_perm {a b : List (C × Tree B L)} (h : a.Perm b) : qsize a = qsize b := by
-  induction h with
-  | nil => rfl
-  | cons x _ ih => simp [qsize, ih]
-  | swap x y l => simp [qsize]; omega
-  | trans _ _ ih1 ih2 => exact ih1.trans ih2
-
-/-- invariant of the search w.r.t. the leaves `Lv` of the whole tree -/
-structure BInv (boxCost : B → C) (leafCost : B → L → C) (Lv : List (B × L)) (queue : List (C × Tree B L))
-    (best : Option (C × L)) : Prop where
-  found : ∀ (c : C) (d : L), best = some (c, d) → ∃ b : B, (b, d) ∈ Lv ∧ leafCost b d = c
-  queued : ∀ e ∈ queue, LB boxCost leafCost e.2 ∧ ∀ p ∈ leaves e.2, e.1 ≤ leafCost p.1 p.2 ∧ p ∈ Lv
-
-/-- a leaf is accounted for: `best` is at least as good, or it lies below a queued entry -/
-def Covered (leafCost : B → L → C) (queue : List (C × Tree B L)) (best : Option (C × L)) (p : B × L) : Prop :=
-  (∃ (bc : C) (bd : L), best = some (bc, bd) ∧ bc ≤ leafCost p.1 p.2) ∨ (∃ e ∈ queue, p ∈ leaves e.2)
-
-private theorem visitLanes_inv (boxCost : B → C) (leafCost : B → L → C) (Lv : List (B × L)) :
-    ∀ (cs : List (Tree B L)) (queue : List (C × Tree B L)) (best : Option (C × L)),
-      BInv boxCost leafCost Lv queue best → LBList boxCost leafCost cs → (∀ p ∈ leavesList cs, p ∈ Lv) →
-      BInv boxCost leafCost Lv (visitLanes ltb boxCost leafCost cs queue best).1 (visitLanes ltb boxCost leafCost cs queue best).2 ∧
-      (∀ p : B × L, Covered leafCost queue best p ∨ p ∈ leavesList cs →
-        Covered leafCost (visitLanes ltb boxCost leafCost cs queue best).1 (visitLanes ltb boxCost leafCost cs queue best).2 p) ∧
-      qsize (visitLanes ltb boxCost leafCost cs queue best).1 ≤ qsize queue + sizeList cs := by
-  intro cs
-  induction cs with
-  | nil =>
-    intro queue best hI _ _
-    refine ⟨hI, ?_, by simp [visitLanes, sizeList]⟩
-    intro p hp
-    rcases hp with h | h
-    · exact h
-    · simp [leavesList] at h
-  | cons t ts ih =>
-    intro queue best hI hLB hsub
-    obtain ⟨hLBt, hLBts⟩ := hLB
-    have hsubt : ∀ p ∈ leaves t, p ∈ Lv := fun p hp => hsub p (by simp [leavesList, hp])
-    have hsubts : ∀ p ∈ leavesList ts, p ∈ Lv := fun p hp => hsub p (by simp [leavesList, hp])
-    cases t with
-    | leaf b d =>
-      simp only [visitLanes]
-      have hI' : BInv boxCost leafCost Lv queue
-          (if beats ltb (leafCost b d) best = true then some (leafCost b d, d) else best) := by
-        refine ⟨?_, hI.queued⟩
-        intro c d' hbest
-        split at hbest
-        · simp only [Option.some.injEq, Prod.mk.injEq] at hbest
-          obtain ⟨rfl, rfl⟩ := hbest
-          exact ⟨b, hsubt (b, d) (by simp [leaves]), rfl⟩
-        · exact hI.found c d' hbest
-      obtain ⟨h1, h2, h3⟩ := ih queue _ hI' hLBts hsubts
-      refine ⟨h1, ?_, by simp only [sizeList, size]; omega⟩
-      intro p hp
-      apply h2
-      rcases hp with hc | hm
-      · left
-        rcases hc with ⟨bc, bd, hb, hle⟩ | hq
-        · left
-          split
-          · rename_i hbt
-            have := (beats_iff _ _).1 hbt bc bd hb
-            exact ⟨_, _, rfl, le_trans (le_of_lt this) hle⟩
-          · exact ⟨bc, bd, hb, hle⟩
-        · exact Or.inr hq
-      · simp only [leavesList, leaves, List.cons_append, List.nil_append, List.mem_cons] at hm
-        rcases hm with rfl | hm
-        · left; left
-          split
-          · exact ⟨_, _, rfl, le_refl _⟩
-          · rename_i hbt
-            exact not_beats _ _ hbt
-        · exact Or.inr hm
-    | node b cs' =>
-      simp only [visitLanes]
-      have hbox := LB_box boxCost leafCost (.node b cs') hLBt
-      have hI' : BInv boxCost leafCost Lv
-          (if beats ltb (boxCost b) best = true then (boxCost b, Model.Bvh.Tree.node b cs') :: queue else queue) best := by
-        refine ⟨hI.found, ?_⟩
-        intro e he
-        split at he
-        · simp only [List.mem_cons] at he
-          rcases he with rfl | he
-          · exact ⟨hLBt, fun p hp => ⟨hbox p hp, hsubt p hp⟩⟩
-          · exact hI.queued e he
-        · exact hI.queued e he
-      obtain ⟨h1, h2, h3⟩ := ih _ best hI' hLBts hsubts
-      refine ⟨h1, ?_, ?_⟩
-      · intro p hp
-        apply h2
-        rcases hp with hc | hm
-        · left
-          rcases hc with hb | ⟨e, he, hpe⟩
-          · exact Or.inl hb
-          · right; refine ⟨e, ?_, hpe⟩
-            split
-            · exact List.mem_cons_of_mem _ he
-            · exact he
-        · simp only [leavesList, List.mem_append] at hm
-          rcases hm with hm | hm
-          · left
-            by_cases hbt : beats ltb (boxCost b) best = true
-            · right; refine ⟨(boxCost b, Model.Bvh.Tree.node b cs'), ?_, hm⟩
-              simp [hbt]
-            · left
-              obtain ⟨bc, bd, hb, hle⟩ := not_beats _ _ hbt
-              exact ⟨bc, bd, hb, le_trans hle (hbox p hm)⟩
-          · exact Or.inr hm
-      · refine le_trans h3 ?_
-        split
-        · simp only [qsize, sizeList]; omega
-        · simp only [sizeList]; omega
-
-private theorem qsize_zero (q : List (C × Tree B L)) (h : qsize q = 0) : q = [] := by
-  cases q with
-  | nil => rfl
-  | cons e es => simp only [qsize] at h; have := size_pos e.2; omega
-
-private theorem bestFirstLoop_spec (boxCost : B → C) (leafCost : B → L → C) (Lv : List (B × L)) :
-    ∀ (fuel : Nat) (queue : List (C × Tree B L)) (best : Option (C × L)),
-      BInv boxCost leafCost Lv queue best → (∀ p ∈ Lv, Covered leafCost queue best p) → qsize queue ≤ fuel →
-      ∃ res : Option (C × L), bestFirstLoop ltb boxCost leafCost fuel queue best = some res ∧
-        (∀ (c : C) (d : L), res = some (c, d) → ∃ b : B, (b, d) ∈ Lv ∧ leafCost b d = c) ∧
-        (∀ p ∈ Lv, ∃ (c : C) (d : L), res = some (c, d) ∧ c ≤ leafCost p.1 p.2) := by
-  intro fuel
-  induction fuel with
-  | zero =>
-    intro queue best hI hcov hsz
-    have hq : queue = [] := qsize_zero queue (by omega)
-    subst hq
-    refine ⟨best, by simp [bestFirstLoop], hI.found, ?_⟩
-    intro p hp
-    rcases hcov p hp with h | ⟨e, he, _⟩
-    · exact h
-    · simp at he
-  | succ fuel ih =>
-    intro queue best hI hcov hsz
-    simp only [bestFirstLoop]
-    cases hpm : popMin ltb queue with
-    | none =>
-      have hq : queue = [] := (popMin_none queue).1 hpm
-      subst hq
-      refine ⟨best, rfl, hI.found, ?_⟩
-      intro p hp
-      rcases hcov p hp with h | ⟨e, he, _⟩
-      · exact h
-      · simp at he
-    | some r =>
-      obtain ⟨⟨c, t⟩, rest⟩ := r
-      obtain ⟨hperm, hmin⟩ := popMin_spec queue (c, t) rest hpm
-      have hmem : ∀ e, e ∈ queue ↔ e = (c, t) ∨ e ∈ rest := by
-        intro e; rw [← hperm.mem_iff]; simp
-      have hqs : qsize queue = size t + qsize rest := by rw [← qsize_perm hperm]; rfl
-      have hIrest : BInv boxCost leafCost Lv rest best :=
-        ⟨hI.found, fun e he => hI.queued e ((hmem e).2 (Or.inr he))⟩
-      obtain ⟨hLBt, hlt⟩ := hI.queued (c, t) ((hmem _).2 (Or.inl rfl))
-      simp only
-      by_cases hbt : beats ltb c best = true
-      · simp only [hbt, Bool.not_true, Bool.false_eq_true, if_false]
-        cases t with
-        | leaf b d =>
-          obtain ⟨h1, h2, h3⟩ := visitLanes_inv boxCost leafCost Lv [Tree.leaf b d] rest best hIrest
-            ⟨hLBt, trivial⟩ (fun p hp => (hlt p (by simpa [leavesList] using hp)).2)
-          have hq1 : (visitLanes ltb boxCost leafCost [Tree.leaf b d] rest best).1 = rest := by simp [visitLanes]
-          rw [hq1] at h1 h2
-          apply ih rest _ h1
-          · intro p hp
-            apply h2
-            rcases hcov p hp with h | ⟨e, he, hpe⟩
-            · exact Or.inl (Or.inl h)
-            · rcases (hmem e).1 he with rfl | he'
-              · exact Or.inr (by simpa [leavesList] using hpe)
-              · exact Or.inl (Or.inr ⟨e, he', hpe⟩)
-          · simp only [size] at hqs; omega
-        | node b cs =>
-          obtain ⟨h1, h2, h3⟩ := visitLanes_inv boxCost leafCost Lv cs rest best hIrest hLBt.2
-            (fun p hp => (hlt p (by simpa [leaves] using hp)).2)
-          apply ih _ _ h1
-          · intro p hp
-            apply h2
-            rcases hcov p hp with h | ⟨e, he, hpe⟩
-            · exact Or.inl (Or.inl h)
-            · rcases (hmem e).1 he with rfl | he'
-              · exact Or.inr (by simpa [leaves] using hpe)
-              · exact Or.inl (Or.inr ⟨e, he', hpe⟩)
-          · simp only [size] at hqs; omega
-      · simp only [hbt, Bool.not_false, if_true]
-        obtain ⟨bc, bd, hb, hle⟩ := not_beats _ _ hbt
-        refine ⟨best, rfl, hI.found, ?_⟩
-        intro p hp
-        rcases hcov p hp with h | ⟨e, he, hpe⟩
-        · exact h
-        · refine ⟨bc, bd, hb, ?_⟩
-          have h1 : c ≤ e.1 := by
-            rcases (hmem e).1 he with rfl | he'
-            · exact le_refl _
-            · exact hmin e he'
-          exact le_trans hle (le_trans h1 ((hI.queued e he).2 p hpe).1)
-
-/-- **`best_first_optimal`**: on every tree whose lane weights are lower bounds of the leaf costs below them, best-first
-search terminates within its own fuel and returns a leaf of minimum cost: the returned cost is attained by a leaf and is
-`≤` the cost of every leaf; it returns nothing only if the tree has no leaf.  (The cut-off `-entry.cost >= best_cost`
-and the mask `weight < best_cost` never discard a strictly better leaf.) -/
-theorem bestFirst_optimal (boxCost : B → C) (leafCost : B → L → C) (t : Tree B L) (h : LB boxCost leafCost t) :
-    ∃ res : Option (C × L), bestFirst ltb boxCost leafCost t = some res ∧
-      (∀ (c : C) (d : L), res = some (c, d) → (∃ b : B, (b, d) ∈ leaves t ∧ leafCost b d = c) ∧
-          ∀ p ∈ leaves t, c ≤ leafCost p.1 p.2) ∧
-      (res = none → leaves t = []) := by
-  have hI : BInv boxCost leafCost (leaves t) [(boxCost t.box, t)] none := by
-    refine ⟨?_, ?_⟩
-    · intro c d hb; cases hb
-    intro e he
-    simp only [List.mem_singleton] at he; subst he
-    exact ⟨h, fun p hp => ⟨LB_box boxCost leafCost t h p hp, hp⟩⟩
-  obtain ⟨res, hr, hf, hmin⟩ := bestFirstLoop_spec boxCost leafCost (leaves t) (size t + 1) _ none hI
-    (fun p hp => Or.inr ⟨(boxCost t.box, t), by simp, hp⟩) (by simp [qsize])
-  refine ⟨res, hr, ?_, ?_⟩
-  · intro c d hres
-    refine ⟨hf c d hres, ?_⟩
-    intro p hp
-    obtain ⟨c', d', hres', hle⟩ := hmin p hp
-    rw [hres] at hres'; cases hres'; exact hle
-  · intro hnone
-    cases hl : leaves t with
-    | nil => rfl
-    | cons p ps =>
-      obtain ⟨c', d', hres', _⟩ := hmin p (by rw [hl]; simp)
-      rw [hnone] at hres'; cases hres'
-
-end bestfirst
-
-/-! ## non-vacuity: concrete trees (boxes = intervals of ℕ, costs = distance to a point) -/
-section examples
-/-- interval boxes `[lo, hi]` -/
-abbrev IBox := Nat × Nat
-def icontains (a b : IBox) : Prop := a.1 ≤ b.1 ∧ b.2 ≤ a.2
-/-- the predicate "the interval meets [5, 6]" (monotone for containment) -/
-def meets56 (b : IBox) : Bool := decide (b.1 ≤ 6) && decide (5 ≤ b.2)
-/-- distance from the point 20 to an interval -/
-def dist20 (b : IBox) : Nat := if 20 < b.1 then b.1 - 20 else if b.2 < 20 then 20 - b.2 else 0
-
-def exTree : Tree IBox Nat :=
-  .node (0, 40) [ .node (0, 9) [.leaf (0, 3) 0, .leaf (4, 6) 1, .leaf (6, 9) 2],
-                  .node (10, 40) [.leaf (10, 12) 3, .node (15, 40) [.leaf (15, 18) 4, .leaf (30, 40) 5]],
-                  .node (7, 8) [] ]
-
-example : Nested icontains exTree := by
-  simp [exTree, Nested, NestedList, icontains, Tree.box]
-example : MonotonePred icontains meets56 := by
-  intro a b h hp
-  simp only [meets56, Bool.and_eq_true, decide_eq_true_eq] at *
-  obtain ⟨h1, h2⟩ := h; omega
-example : dfs meets56 exTree = [1, 2] := by decide
-example : dfsLoop meets56 (size exTree) [exTree] [] = some [2, 1] := by decide
-example : LB dist20 (fun b _ => dist20 b) exTree := by
-  simp [exTree, LB, LBList, leavesList, leaves, dist20]
-example : bestFirst ltb dist20 (fun b _ => dist20 b) exTree = some (some (2, 4)) := by decide
-end examples
-
-/-! ## the simultaneous traversal of two trees -/
-section twotree
-variable {B L : Type}
-
-private theorem mem_leavesList' (ts : List (Model.Bvh.Tree B L)) (p : B × L) (h : p ∈ leavesList ts) :
-    ∃ t ∈ ts, p ∈ leaves t := by
-  induction ts with
-  | nil => simp [leavesList] at h
-  | cons x xs ih =>
-    simp only [leavesList, List.mem_append] at h
-    rcases h with h | h
-    · exact ⟨x, by simp, h⟩
-    · obtain ⟨t, ht, hp⟩ := ih h; exact ⟨t, by simp [ht], hp⟩
-
-private theorem nestedList_mem (contains : B → B → Prop) (b : B) (ts : List (Model.Bvh.Tree B L))
-    (h : NestedList contains b ts) : ∀ t ∈ ts, contains b t.box ∧ Nested contains t := by
-  induction ts with
-  | nil => intro t ht; simp at ht
-  | cons x xs ih =>
-    intro t ht
-    obtain ⟨h1, h2, h3⟩ := h
-    simp only [List.mem_cons] at ht
-    rcases ht with rfl | ht
-    · exact ⟨h1, h2⟩
-    · exact ih h3 t ht
-
-private theorem size_mem_le (ts : List (Model.Bvh.Tree B L)) : ∀ t ∈ ts, size t ≤ sizeList ts := by
-  induction ts with
-  | nil => intro t ht; simp at ht
-  | cons x xs ih =>
-    intro t ht
-    simp only [List.mem_cons] at ht
-    simp only [sizeList]
-    rcases ht with rfl | ht
-    · omega
-    · have := ih t ht; omega
-
-/-- the pair predicate is monotone in both boxes -/
-def MonotonePair (contains : B → B → Prop) (pp : B → B → Bool) : Prop :=
-  (∀ a a' b : B, contains a a' → pp a' b = true → pp a b = true) ∧
-  (∀ a b b' : B, contains b b' → pp a b' = true → pp a b = true)
-
-/-- **two-tree traversal is complete**: on two nested trees, for a pair predicate that is monotone in both boxes, every
-pair of leaves whose own boxes satisfy the predicate is reported, as soon as the fuel covers both trees
-(induction on both trees at once) -/
-theorem pairs_complete (contains : B → B → Prop) (pp : B → B → Bool) (hm : MonotonePair contains pp) :
-    ∀ (f : Nat) (t1 t2 : Model.Bvh.Tree B L), size t1 + size t2 ≤ f → Nested contains t1 → Nested contains t2 →
-      ∀ (b1 b2 : B) (d1 d2 : L), (b1, d1) ∈ leaves t1 → (b2, d2) ∈ leaves t2 → pp b1 b2 = true →
-        (d1, d2) ∈ pairs pp f t1 t2 := by
-  intro f
-  induction f with
-  | zero => intro t1 t2 hsz; cases t1 <;> simp [size] at hsz <;> omega
-  | succ f ih =>
-    intro t1 t2 hsz hn1 hn2 b1 b2 d1 d2 hl1 hl2 hp
-    -- the predicate holds on the two roots
-    have hroot : pp t1.box t2.box = true := by
-      have h1 : pp t1.box b2 = true :=
-        pred_up contains (fun x => pp x b2) (fun a a' hc h => hm.1 a a' b2 hc h) t1 hn1 b1 d1 hl1 hp
-      exact pred_up contains (fun y => pp t1.box y) (fun b b' hc h => hm.2 t1.box b b' hc h) t2 hn2 b2 d2 hl2 h1
-    cases t1 with
-    | leaf bx1 dx1 =>
-      simp only [leaves, List.mem_singleton, Prod.mk.injEq] at hl1
-      obtain ⟨rfl, rfl⟩ := hl1
-      cases t2 with
-      | leaf bx2 dx2 =>
-        simp only [leaves, List.mem_singleton, Prod.mk.injEq] at hl2
-        obtain ⟨rfl, rfl⟩ := hl2
-        simp only [Tree.box] at hroot
-        simp [pairs, Tree.box, hroot]
-      | node bx2 cs2 =>
-        simp only [leaves] at hl2
-        obtain ⟨c2, hc2, hlc2⟩ := mem_leavesList' cs2 _ hl2
-        obtain ⟨_, hnc2⟩ := nestedList_mem contains bx2 cs2 hn2 c2 hc2
-        have hs := size_mem_le cs2 c2 hc2
-        simp only [size] at hsz
-        simp only [pairs, hroot, if_true, List.mem_flatMap]
-        exact ⟨c2, hc2, ih (Model.Bvh.Tree.leaf b1 d1) c2 (by simp only [size]; omega) (by simp [Nested]) hnc2 b1 b2 d1 d2 (by simp [leaves]) hlc2 hp⟩
-    | node bx1 cs1 =>
-      simp only [leaves] at hl1
-      obtain ⟨c1, hc1, hlc1⟩ := mem_leavesList' cs1 _ hl1
-      obtain ⟨_, hnc1⟩ := nestedList_mem contains bx1 cs1 hn1 c1 hc1
-      have hs1 := size_mem_le cs1 c1 hc1
-      cases t2 with
-      | leaf bx2 dx2 =>
-        simp only [leaves, List.mem_singleton, Prod.mk.injEq] at hl2
-        obtain ⟨rfl, rfl⟩ := hl2
-        simp only [size] at hsz
-        simp only [pairs, hroot, if_true, List.mem_flatMap]
-        exact ⟨c1, hc1, ih c1 (Model.Bvh.Tree.leaf b2 d2) (by simp only [size]; omega) hnc1 (by simp [Nested]) b1 b2 d1 d2 hlc1 (by simp [leaves]) hp⟩
-      | node bx2 cs2 =>
-        simp only [leaves] at hl2
-        obtain ⟨c2, hc2, hlc2⟩ := mem_leavesList' cs2 _ hl2
-        obtain ⟨_, hnc2⟩ := nestedList_mem contains bx2 cs2 hn2 c2 hc2
-        have hs2 := size_mem_le cs2 c2 hc2
-        simp only [size] at hsz
-        simp only [pairs, hroot, if_true, List.mem_flatMap]
-        exact ⟨c1, hc1, c2, hc2, ih _ _ (by omega) hnc1 hnc2 b1 b2 d1 d2 hlc1 hlc2 hp⟩
-
-/-- non-vacuity: interval overlap is monotone in both arguments, and the example tree against itself -/
-def ioverlap (a b : IBox) : Bool := decide (a.1 ≤ b.2) && decide (b.1 ≤ a.2)
-example : MonotonePair icontains ioverlap := by
-  constructor
-  · intro a a' b h hp
-    simp only [ioverlap, Bool.and_eq_true, decide_eq_true_eq] at *
-    obtain ⟨h1, h2⟩ := h; omega
-  · intro a b b' h hp
-    simp only [ioverlap, Bool.and_eq_true, decide_eq_true_eq] at *
-    obtain ⟨h1, h2⟩ := h; omega
-example : pairs ioverlap (size exTree + size exTree) exTree exTree =
-    [(0, 0), (1, 1), (1, 2), (2, 1), (2, 2), (3, 3), (4, 4), (5, 5)] := by decide
-
-end twotree
-
-/-! ## the lower bound behind the distance pruning of the composite-shape visitors -/
-section pruning
-open Model
-variable {K : Type} [Field K] [LinearOrder K] [IsStrictOrderedRing K] (sq : K → K)
-
-/-- per axis: if `lo ≤ x ≤ hi` then the distance `max(lo, -hi, 0)` from the origin to `[lo, hi]` is at most `|x|`
-(squared form) -/
-theorem axis_lower_bound (lo hi x : K) (h1 : lo ≤ x) (h2 : x ≤ hi) :
-    max (max lo (-hi)) 0 * max (max lo (-hi)) 0 ≤ x * x := by
-  rcases le_total 0 lo with hlo | hlo
-  · have e : max (max lo (-hi)) 0 = lo := by
-      have : -hi ≤ lo := by linarith
-      rw [max_eq_left this, max_eq_left hlo]
-    rw [e]; nlinarith
-  · rcases le_total hi 0 with hhi | hhi
-    · have e : max (max lo (-hi)) 0 = -hi := by
-        have : lo ≤ -hi := by linarith
-        rw [max_eq_right this, max_eq_left (by linarith)]
-      rw [e]; nlinarith
-    · have e : max (max lo (-hi)) 0 = 0 := by
-        have : max lo (-hi) ≤ 0 := max_le hlo (by linarith)
-        rw [max_eq_right this]
-      rw [e]; nlinarith [mul_self_nonneg x]
-
-/-- membership of a point in a box (coordinate-wise) -/
-def InBox (b : Aabb3 K) (p : V3 K) : Prop :=
-  (b.mins.x ≤ p.x ∧ p.x ≤ b.maxs.x) ∧ (b.mins.y ≤ p.y ∧ p.y ≤ b.maxs.y) ∧ (b.mins.z ≤ p.z ∧ p.z ≤ b.maxs.z)
-
-/-- **the pruning bound of the composite distance visitors is a lower bound (squared form)**: for a BVH lane box `bv`
-and the box `[c - h, c + h]` of the other shape (both in the frame of the composite), the Minkowski-sum box built by the
-visitor (`shift = -c`, `margin = h`) is at squared distance at most `|p1 - p2|²` from the origin, for every `p1` in the
-lane box and every `p2` in the other box.  Hence a lane whose bound is `≥ best` cannot contain a part closer than
-`best`. -/
-theorem msum_lower_bound_sq (bv : Aabb3 K) (c h : V3 K) (p1 p2 : V3 K) :
-    letI := fieldNum K sq
-    InBox bv p1 → InBox ⟨c.sub h, c.add h⟩ p2 →
-      (originShift (msumBox bv c.neg h)).normSq ≤ (p1.sub p2).normSq := by
-  letI := fieldNum K sq
-  rintro ⟨⟨a1, a2⟩, ⟨a3, a4⟩, ⟨a5, a6⟩⟩ ⟨⟨b1, b2⟩, ⟨b3, b4⟩, ⟨b5, b6⟩⟩
-  simp only [V3.sub, V3.add] at b1 b2 b3 b4 b5 b6
-  simp only [originShift, msumBox, V3.normSq, V3.dot, V3.sup, V3.add, V3.neg, V3.sub, V3.zero, fieldNum_nmax]
-  have hx := axis_lower_bound (bv.mins.x + -c.x + -h.x) (bv.maxs.x + -c.x + h.x) (p1.x - p2.x) (by linarith) (by linarith)
-  have hy := axis_lower_bound (bv.mins.y + -c.y + -h.y) (bv.maxs.y + -c.y + h.y) (p1.y - p2.y) (by linarith) (by linarith)
-  have hz := axis_lower_bound (bv.mins.z + -c.z + -h.z) (bv.maxs.z + -c.z + h.z) (p1.z - p2.z) (by linarith) (by linarith)
-  linarith
-
-/-- the same with the square roots the code takes: `distance_to_origin(msum) ≤ |p1 - p2|` -/
-theorem msum_lower_bound (hs : LawfulSqrt sq) (bv : Aabb3 K) (c h : V3 K) (p1 p2 : V3 K) :
-    letI := fieldNum K sq
-    InBox bv p1 → InBox ⟨c.sub h, c.add h⟩ p2 →
-      distToOrigin (msumBox bv c.neg h) ≤ (p1.sub p2).norm := by
-  letI := fieldNum K sq
-  intro h1 h2
-  have hle := msum_lower_bound_sq sq bv c h p1 p2 h1 h2
-  have hn1 : 0 ≤ (originShift (msumBox bv c.neg h)).normSq := by
-    simp only [V3.normSq, V3.dot]; nlinarith [mul_self_nonneg (originShift (msumBox bv c.neg h)).x, mul_self_nonneg (originShift (msumBox bv c.neg h)).y, mul_self_nonneg (originShift (msumBox bv c.neg h)).z]
-  have hn2 : 0 ≤ (p1.sub p2).normSq := le_trans hn1 hle
-  simp only [distToOrigin, V3.norm]
-  show sq _ ≤ sq _
-  have ha := hs.nonneg _ hn1
-  have hb := hs.nonneg _ hn2
-  have ea := hs.sq_mul _ hn1
-  have eb := hs.sq_mul _ hn2
-  by_contra hc
-  push Not at hc
-  nlinarith
-
-/-- the slipped sign (`mins: bv.mins + shift + margin`) is NOT a lower bound: lane box `[11.5, 12.5]`, other box
-`[10, 11.2]` (centre 10.6, half-extent 0.6): the true gap is 0.3, the correct bound is 0.3, the slipped bound is 1.5 -/
-example : (11.5 - 11.2 : ℚ) = 0.3 ∧ max (max (11.5 + -10.6 + -0.6 : ℚ) (-(12.5 + -10.6 + 0.6))) 0 = 0.3 ∧
-    max (max (11.5 + -10.6 + 0.6 : ℚ) (-(12.5 + -10.6 + 0.6))) 0 = 1.5 := by
-  refine ⟨by norm_num, ?_, ?_⟩ <;> norm_num
-
-end pruning
-
-end C07
